@@ -42,8 +42,8 @@ PROPS = {
     ),
     'C06': dict(
         families=['compare'], reports=['compare'], consts=True,
-        proof_files=COMPARE,
-        theorems='c06_is_lex, c06_refl, c06_antisym, c06_trans, c06_trans_lt, c06_eq_iff, c06_same_is_identical, c06_prefix_first, c06_min_max (+ c06_nan_payload_irreflexive: the domain edge)',
+        proof_files=COMPARE + ['Proofs/LexFirstDiffP.v'],
+        theorems='c06_is_lex, c06_refl, c06_antisym, c06_trans, c06_trans_lt, c06_eq_iff, c06_same_is_identical, c06_prefix_first, c06_decomposition, c06_split_decides, c06_first_difference, c06_tails_irrelevant, c06_min_max (+ c06_nan_payload_irreflexive: the domain edge)',
         assumptions=['domain: well-formed tokens whose float payloads are not NaN (the canonical NaN is the NaN kind, which is in the domain)',
                      'IEEE-754 ordering of non-NaN floats is modelled as a sign-magnitude key on bit patterns (Base/Floats.v); validated against Go on boundary and random bit patterns by every run'],
     ),
